@@ -346,8 +346,12 @@ def _yardstick_loop(n):
     return out
 
 
+YARD_N = 100000  # about 70 ms of CPU: with an interval timer armed the kernel accounts process CPU time in ticks (4 ms observed here),
+                 # so a yardstick of a few milliseconds reads as 0 or 4 ms
+
+
 def yardstick(fresh=False):
-    """CPU seconds per executed source line of `_yardstick_loop` (best of 3)"""
+    """CPU seconds per executed source line of `_yardstick_loop` (best of 2 runs of YARD_N iterations)"""
     import time
 
     if "lines" not in _yard:
@@ -363,18 +367,18 @@ def yardstick(fresh=False):
 
         sys.settrace(tr)
         try:
-            _yardstick_loop(3000)
+            _yardstick_loop(2000)
         finally:
             sys.settrace(None)
-        _yard["lines"] = n[0]
+        _yard["lines"] = n[0] * (YARD_N // 2000)  # the loop body is the same for every i up to the popcount of i & 0xFF: period 256
     if fresh or "t" not in _yard:
         best = None
-        for _ in range(3):
+        for _ in range(2):
             t = time.process_time()
-            _yardstick_loop(3000)
+            _yardstick_loop(YARD_N)
             dt = time.process_time() - t
             best = dt if best is None else min(best, dt)
-        _yard["t"] = max(best, 1e-6) / _yard["lines"]
+        _yard["t"] = max(best, 0.004) / _yard["lines"]
     return _yard["t"]
 
 
